@@ -27,6 +27,11 @@ def check(path, cwd, bi):
     user = aioftp.User()
     user.base_path = base
     c = aioftp.Connection(current_directory=pathlib.PurePosixPath(cwd), user=user)
+    # the same argument was resolved a moment ago by ANOTHER session (other working directory, other base directory): the
+    # answer for this session must not depend on it (get_paths is a function of its arguments, it remembers nothing)
+    decoy_user = aioftp.User()
+    decoy_user.base_path = pathlib.PurePosixPath("/decoy/base")
+    aioftp.Server.get_paths(aioftp.Connection(current_directory=pathlib.PurePosixPath("/de/coy"), user=decoy_user), path)
     real, virt = aioftp.Server.get_paths(c, path)
     ref = M.resolve(cwd, path)
     vs = str(virt)
